@@ -1051,7 +1051,10 @@ func (b *broker) subEventHistory(msg *wamp.Invocation) wamp.Message {
 		}
 	}
 
-	limit, ok = msg.ArgumentsKw["limit"].(int)
+	// Numbers arrive as different Go types depending on the transport and
+	// serializer, so read them type-tolerantly.
+	limit64, ok := wamp.AsInt64(msg.ArgumentsKw["limit"])
+	limit = int(limit64)
 	if ok && limit < 1 {
 		return &wamp.Error{
 			Type:    msg.MessageType(),
@@ -1133,7 +1136,7 @@ func (b *broker) subEventHistory(msg *wamp.Invocation) wamp.Message {
 
 	fromPubOp, ok := msg.ArgumentsKw["from_publication"]
 	if ok {
-		fromPub, ok = fromPubOp.(wamp.ID)
+		fromPub, ok = wamp.AsID(fromPubOp)
 		if !ok || fromPub < 1 {
 			return &wamp.Error{
 				Type:    msg.MessageType(),
@@ -1147,7 +1150,7 @@ func (b *broker) subEventHistory(msg *wamp.Invocation) wamp.Message {
 
 	afterPubOp, ok := msg.ArgumentsKw["after_publication"]
 	if ok {
-		afterPub, ok = afterPubOp.(wamp.ID)
+		afterPub, ok = wamp.AsID(afterPubOp)
 		if !ok || afterPub < 1 {
 			return &wamp.Error{
 				Type:    msg.MessageType(),
@@ -1160,7 +1163,7 @@ func (b *broker) subEventHistory(msg *wamp.Invocation) wamp.Message {
 
 	beforePubOp, ok := msg.ArgumentsKw["before_publication"]
 	if ok {
-		beforePub, ok = beforePubOp.(wamp.ID)
+		beforePub, ok = wamp.AsID(beforePubOp)
 		if !ok || beforePub < 1 {
 			return &wamp.Error{
 				Type:    msg.MessageType(),
@@ -1173,7 +1176,7 @@ func (b *broker) subEventHistory(msg *wamp.Invocation) wamp.Message {
 
 	untilPubOp, ok := msg.ArgumentsKw["until_publication"]
 	if ok {
-		untilPub, ok = untilPubOp.(wamp.ID)
+		untilPub, ok = wamp.AsID(untilPubOp)
 		if !ok || untilPub < 1 {
 			return &wamp.Error{
 				Type:    msg.MessageType(),
